@@ -62,6 +62,7 @@ class DocGen:
         self.xobjs = []
         self.plains = set()        # every plain content that may meet the deflate oracle
         self.inflate = {}          # compressed -> plain (streams the generator compressed itself)
+        self.held = []             # ids a STREAM's dictionary refers to directly (entry value, array item, nested dictionary)
 
     def new_id(self):
         rng = self.rng
@@ -209,7 +210,51 @@ class DocGen:
         self.objects[me] = dic(*ent)
         return me, count
 
-    def build(self):
+    def decorate_streams(self, p):
+        """direct references inside the DICTIONARY of stream objects, the way real files hold them: an image's /SMask, a form
+        XObject's /Resources (reference, or a direct dictionary whose entries are references), /Metadata, /OC, a colour space
+        array [/Indexed /DeviceRGB 1 ref], an indirect /Length -- single, in arrays (also twice), in nested dictionaries.
+        The targets (pages, annotations, fonts, other streams, anything) are remembered in self.held: programs delete them."""
+        rng = self.rng
+        for sid in list(self.streams):
+            if rng.random() >= p:
+                continue
+            _, ent, c = self.objects[sid]
+            ent = list(ent)
+            keys = set(k for k, _ in ent)
+            for _ in range(rng.choice([1, 1, 2, 3])):
+                pool = rng.choice([self.pages, self.pages, self.annots, self.fonts, self.streams, list(self.objects)])
+                pool = [x for x in pool if x != sid] or [x for x in self.objects if x != sid]
+                if not pool:
+                    break
+                tgt = rng.choice(pool)
+                form = rng.random()
+                if form < 0.4:
+                    key, v = rng.choice([b'SMask', b'Metadata', b'OC', b'Resources', b'Pg', b'Alternates']), ref(tgt)
+                elif form < 0.65:
+                    key = rng.choice([b'ColorSpace', b'Mask', b'Refs'])
+                    v = rng.choice([arr(name('Indexed'), name('DeviceRGB'), num(1), ref(tgt)), arr(ref(tgt)), arr(ref(tgt), num(0), ref(tgt)),
+                                    arr(num(1), arr(ref(tgt), name('X')))])
+                elif form < 0.9:
+                    key = rng.choice([b'Resources', b'Group', b'PieceInfo'])
+                    v = rng.choice([dic((b'Font', dic((b'F9', ref(tgt))))), dic((b'S', name('Transparency')), (b'CS', ref(tgt))),
+                                    dic((b'XObject', dic((b'Im7', ref(tgt)), (b'Im8', ref(tgt)))), (b'ProcSet', arr(name('PDF'), ref(tgt))))])
+                else:
+                    # an indirect Length: the integer lives in its own object
+                    if not any(k == b'Length' and o[0] == 'i' for k, o in ent):
+                        continue
+                    tgt = self.put(num(len(c)))
+                    ent = [(k, ref(tgt) if k == b'Length' else o) for k, o in ent]
+                    self.held.append(tgt)
+                    continue
+                if key in keys:
+                    continue
+                keys.add(key)
+                ent.insert(rng.randint(0, len(ent)), (key, v))
+                self.held.append(tgt)
+            self.objects[sid] = ('st', ent, c)
+
+    def build(self, p_held=None):
         rng = self.rng
         root, _ = self.pages_node(None, rng.choice([0, 1, 2, 3]))
         cat_ent = [(b'Type', name('Catalog')), (b'Pages', ref(root))]
@@ -227,6 +272,7 @@ class DocGen:
         if rng.random() < 0.1:
             tr.append((b'ID', arr(('s', b'a'), ('s', b'b'))))
         rng.shuffle(tr)
+        self.decorate_streams(rng.choice([0, 0.2, 0.4, 0.7]) if p_held is None else p_held)
         # unreachable objects, some referring to reachable ones and to each other
         prev = None
         for _ in range(rng.choice([0, 0, 1, 2, 4])):
@@ -354,6 +400,8 @@ class ProgGen:
                 self.ids.append(id)
             return L('set', OID(*id), o_sx(self.small_obj()))
         if k == 'del':
+            if g.held and rng.random() < 0.3:
+                return L('del', OID(*rng.choice(g.held)))        # an object that a stream's dictionary names directly
             r = rng.random()
             pool = (g.pages if r < 0.2 else g.annots if r < 0.35 else g.streams if r < 0.5 else g.fonts if r < 0.6 else None)
             id = rng.choice(pool) if pool else self.any_id()
@@ -366,6 +414,9 @@ class ProgGen:
         if k == 'delpages':
             n = len(g.pages)
             nums = [rng.randint(1, n + 1) for _ in range(rng.choice([1, 1, 1, 2, 3]))]
+            held_pages = [p for p in g.held if p in g.pages]
+            if held_pages and rng.random() < 0.4:
+                nums[rng.randrange(len(nums))] = g.pages.index(rng.choice(held_pages)) + 1     # a page a stream's dictionary names
             if rng.random() < 0.1:
                 nums.append(rng.choice([0, 99, nums[0]]))
             return L('delpages', *[str(x) for x in nums])
@@ -467,15 +518,39 @@ class ProgGen:
         return ops
 
 
+    def strip_program(self):
+        """deletions of objects that the dictionary of a stream names directly (delete_object on the target, delete_pages on a
+        page), early in the program while the holder is still reachable, interleaved with a few other operations"""
+        rng = self.rng
+        g = self.g
+        ops = [self.one(ALL_OPS) for _ in range(rng.choice([0, 0, 0, 1, 2]))]
+        targets = list(dict.fromkeys(g.held))
+        rng.shuffle(targets)
+        for t in targets[:rng.choice([1, 1, 2, 3, 5])]:
+            if t in g.pages and rng.random() < 0.6:
+                nums = [g.pages.index(t) + 1] + [rng.randint(1, len(g.pages) + 1) for _ in range(rng.choice([0, 0, 1]))]
+                rng.shuffle(nums)
+                ops.append(L('delpages', *[str(x) for x in nums]))
+            else:
+                ops.append(L('del', OID(*t)))
+            if rng.random() < 0.4:
+                ops.append(self.one(STAGE1 + ['delpages', 'compress', 'decompress', 'save', 'content']))
+        if not targets:
+            ops.append(self.one(['del', 'delpages']))
+        return ops
+
+
 def orc_sx(tbl):
     return L('orc', *[L(t, xb(i), xb(o)) for (t, i, o) in tbl])
 
 
 def gen_program(rng, kinds, maxlen=40):
-    g = DocGen(rng, allow_filters=True).build()
+    g = DocGen(rng, allow_filters=True).build(p_held=0.7 if kinds == 'strip' else None)
     pg = ProgGen(rng, g)
     if kinds == 'outline':
         return g, pg.outline_program()
+    if kinds == 'strip':
+        return g, pg.strip_program()
     n = rng.choice([1, 2, 3, 5, 8, 12, 20, 30, maxlen])
     n = rng.randint(1, n)
     ops = [pg.one(kinds) for _ in range(n)]
@@ -508,11 +583,11 @@ def gen_cases(rng, tier):
     progs = []
     for _ in range(n):
         r = rng.random()
-        kinds = STAGE1 if r < 0.2 else 'outline' if r < 0.35 else ALL_OPS
-        progs.append(gen_program(rng, kinds))
-    z = oracle_answers(set().union(*[g.plains for g, _ in progs]))
+        kinds = STAGE1 if r < 0.2 else 'outline' if r < 0.35 else 'strip' if r < 0.47 else ALL_OPS
+        progs.append(gen_program(rng, kinds) + (kinds,))
+    z = oracle_answers(set().union(*[g.plains for g, _, _ in progs]))
     cases = []
-    for g, ops in progs:
+    for g, ops, kinds in progs:
         tbl = []
         for p in sorted(g.plains):
             if p in z:
@@ -520,7 +595,8 @@ def gen_cases(rng, tier):
                 tbl.append(('f', z[p], p))
         for c, p in sorted(g.inflate.items()):
             tbl.append(('f', c, p))
-        cases.append((case_line(g.sx(), ops, tbl), {'kind': 'prog', 'nontrivial': len(ops) >= 2}))
+        cases.append((case_line(g.sx(), ops, tbl), {'kind': 'prog-strip' if kinds == 'strip' else 'prog-outline' if kinds == 'outline' else 'prog',
+                                                    'nontrivial': len(ops) >= 2 or kinds == 'strip'}))
     return cases
 
 
@@ -604,7 +680,12 @@ SPEC = {
             'bookmark forest, build_outline, then allocating operations, sometimes a second build_outline) over generated documents (page trees of depth <= 4 with own / '
             'inherited / indirect resources, content as reference / array / indirect array / shared stream, annotations, '
             'unreachable objects, indirect-reference objects, sparse ids, max_id at / above / below the largest id and at '
-            'u32::MAX); after every step the canonical dump (objects, trailer, max_id) and the returned value are compared '
+            'u32::MAX; streams whose DICTIONARY holds direct references -- SMask / Metadata / OC / Resources / Pg as a single '
+            'reference, colour-space and mask arrays holding the reference once or twice, nested Resources / Group dictionaries, '
+            'an indirect Length -- to pages, annotations, fonts, other streams; these targets are preferred by delete_object / '
+            'delete_pages steps, and 12 % of the programs are strip programs: such deletions first, while the holder is reachable); '
+            'after every delete_object / delete_pages the verdict "no reference to a deleted id survives in anything a traversal '
+            'from the trailer reaches" is evaluated; after every step the canonical dump (objects, trailer, max_id) and the returned value are compared '
             'with the model and the invariants are evaluated on the implementation; non-trivial = at least 2 operations; '
             'distinct = distinct case text',
     'extra_trusted': ['C11: flate2/weezl are oracles whose answers come from the case (same table as C09)'],
